@@ -35,6 +35,7 @@ func iterBoth(it Iterator, c *lmdb.Cursor, integerKey bool, f iterBothFunc) erro
 	var itKey, dbKey, dbVal []byte
 	var err error
 	prevKey := make([]byte, 0, LMDBMaxKeySize)
+	havePrevKey := false
 
 	var flag uint = lmdb.First
 	for {
@@ -49,10 +50,13 @@ func iterBoth(it Iterator, c *lmdb.Cursor, integerKey bool, f iterBothFunc) erro
 					return fmt.Errorf("iterator next: %w", err)
 				}
 			} else {
-				// Check to ensure the keys are in insert order
-				if cmpFunc(prevKey, itKey) >= 0 {
+				// Check to ensure the keys are in insert order.
+				// There is nothing to compare the first key with: an empty
+				// previous key would read as 0 for integer keys.
+				if havePrevKey && cmpFunc(prevKey, itKey) >= 0 {
 					return fmt.Errorf("%s: %w", string(itKey), ErrNotSorted)
 				}
+				havePrevKey = true
 				prevKey = prevKey[:len(itKey)]
 				copy(prevKey, itKey)
 			}
